@@ -214,12 +214,29 @@ package tchannel
 
 //@ pred HealthStopErr(err error) := err != nil && (GetSystemErrorCode(err) == ErrCodeCancelled || err == ErrInvalidConnectionState)
 
-//@ func (c *Connection) ping(ctx context.Context) (err error)
+// The health-check goroutine pings through healthCheckPing, never through ping:
+// ping turns a ping that cannot be sent into a connection error, and
+// connectionError stops the health checker and WAITS for the health-check
+// goroutine -- called from that goroutine it would wait for itself, the checker
+// would be wedged for good and the connection never closed, however many pings
+// fail afterwards. (It would also close on the first failure, earlier than
+// FailuresToClose.) healthCheckPing only reports; the loop counts.
+// (ASSUMED, trusted: the ghost accounting of ping outcomes)
+//@ func (c *Connection) healthCheckPing(ctx context.Context) (err error)
 //@   trusted
 //@   modifies pingFails(c), pingStopped(c)
 //@   ensures err == nil ==> pingFails(c) == 0
 //@   ensures err != nil ==> pingFails(c) == old(pingFails(c)) + 1
 //@   ensures pingStopped(c) == 1 <==> HealthStopErr(err)
+//@   property C19
+// (verified, same function: its body never takes the connection-error path)
+//@ func (c *Connection) healthCheckPing(ctx context.Context) (err error)
+//@   nosafety
+//@   requires ctx != nil && c.opts.FramePool != nil
+//@   label a-failed-health-check-ping-is-reported-not-turned-into-a-connection-error
+//@   atcall connectionError false
+//@   atcall ping false
+//@   modifies all
 //@   property C19
 
 // T4: a user-supplied TimeTicker returns a ticker.
@@ -247,6 +264,9 @@ package tchannel
 //@   ensures closeReq(c) == old(closeReq(c)) ==> pingFails(c) < c.opts.HealthChecks.FailuresToClose || pingStopped(c) == 1
 //@   label stopped-health-check-does-not-close
 //@   ensures pingStopped(c) == 1 ==> closeReq(c) == old(closeReq(c))
+//@   label the-checker-never-takes-the-connection-error-path-on-its-own-goroutine
+//@   atcall ping false
+//@   atcall connectionError false
 //@   label counter-is-consecutive-failures
 //@   loop 0 invariant consecutiveFailures == pingFails(c) && 0 <= consecutiveFailures && consecutiveFailures < opts.FailuresToClose
 //@   loop 0 invariant closeReq(c) == old(closeReq(c)) && HistoryOK(c.healthCheckHistory) && opts.FailuresToClose == c.opts.HealthChecks.FailuresToClose
